@@ -1,43 +1,83 @@
 CHECK = {
     "lean_module": "MidnightZK.Props.C18",
     "harness": "h-c18",
-    "translators": ["c18_tables"],
+    "translators": ["c18_tables", "c18_serde"],
     "level": "proof",
-    "technique": "executable model of both ZKIR interpreters + simulation proof + three-way differential run",
+    "technique": "executable model of both ZKIR interpreters + simulation proof + three-way differential run; "
+                 "executable models of the bincode decoder and of the serde JSON reader/writer + round-trip, injectivity and "
+                 "canonical-form proofs + decoder correspondence on mutated encodings",
     "rule": "one request per ZKIR program+witness: hand-written boundary programs (regressions of every repaired defect), "
             "seeded random straight-line programs of length 1..25 over all 17 operations and 6 value types with dataflow reuse, "
             "constants and publication of every type, their ill-formed variants (wrong arity, duplicate / missing names, "
             "retargeted inputs, malformed constants, missing / ill-typed / out-of-range witnesses); non-trivial = at least 2 "
-            "instructions; distinctness by hash of the request line",
+            "instructions; distinctness by hash of the request line. Serialisation: one `dec` request per byte string "
+            "(bytes of the real encoder and of a fault-injecting encoder: valid, truncated, extended, flipped / set / inserted "
+            "bytes, over-wide integers, u128 / reserved markers, out-of-range variant indices, over-long lengths around the "
+            "limit, boundary payloads 0 / 250 / 251 / 2^16 / 2^32 / 2^64-1, empty / multi-byte / ill-formed UTF-8 names, wrong "
+            "arities) and one `json` request per JSON tree (the tree of the real serialiser and its mutants: keys reordered / "
+            "removed / duplicated / added, structs as arrays, unit variants as objects and back, unknown / wrong-case variant "
+            "names, two-key and empty variant objects, negative / out-of-range / floating / quoted numbers, wrong node kinds)",
     "explanation": "Lean theorems about an executable model of the ZKIR loader, the off-circuit interpreter, the in-circuit "
                    "interpreter at gadget level (shapes, honest values, satisfiability, bound public inputs), public-input "
                    "encoding and the binary program format; every line compares the model with the real code on: loader verdict, "
                    "per-instruction off-circuit trace (input and output values), off-circuit verdict with failing position and "
                    "error class, in-circuit compilation verdict with the recorded public-input types (BigUint limb-bound "
-                   "bookkeeping), raw public inputs, mock-checker verdict on the compiled circuit, bytes of write_relation; the "
-                   "harness checks the property's oracle directly on the real code (no panic, off-circuit success => circuit "
-                   "satisfied with encode(P), off-circuit failure => circuit not satisfied, API consistency, JSON and binary "
-                   "round trips)",
+                   "bookkeeping), raw public inputs, mock-checker verdict on the compiled circuit, bytes of write_relation, JSON "
+                   "text of the derived Serialize; the harness checks the property's oracle directly on the real code (no panic, "
+                   "off-circuit success => circuit satisfied with encode(P), off-circuit failure => circuit not satisfied, API "
+                   "consistency, JSON and binary round trips). Serialisation (last clause of the property): Lean models of "
+                   "read_relation (bincode 2 standard configuration: varints, u32 variant indices, length-prefixed vectors and "
+                   "UTF-8 strings, the claim/unclaim accounting of the 2^24-byte limit, trailing bytes left unread, then the arity "
+                   "check) and of ZkirRelation::read at the level of the serde data model (structs from objects or arrays, "
+                   "defaults, duplicate / unknown / missing keys, externally tagged enums, integer ranges). Proved: decoding the "
+                   "encoder's bytes followed by anything returns the program and the rest (decode_encode_bin, read_write_relation, "
+                   "for every compiled size and limit, under the explicit limit bound), programs beyond the limit are rejected "
+                   "(decode_rejects_beyond_limit), the encoder is injective, the decoder accepts exactly the canonical encodings "
+                   "plus over-wide integers (decode_canonical_partial + witness decode_not_canonical), fromJson (toJson p) = p "
+                   "(fromJson_toJson; reader more liberal than writer: fromJson_not_injective). Tied on every run: for each `dec` "
+                   "line the real read_relation and the model must agree on the verdict class, the decoded program (names as "
+                   "bytes), the number of unread bytes and on whether re-encoding with write_relation gives the consumed bytes "
+                   "back (= the strict model decoder accepts); for each `json` line the real ZkirRelation::read on the rendered "
+                   "text and the model on the tree must agree on the error class or the program. Variant order, payload integer "
+                   "types, serde names / field names / defaults and the decoding limit are parsed from the sources by the "
+                   "translators on every run and pinned by theorems; the translator c18_serde is deliberately tight: it stops "
+                   "when write_relation / read_relation / read no longer have the literal bincode / serde_json calls it knows, or "
+                   "when a serde attribute it does not model appears",
     "trusted_base": [
         "gadgets of midnight-circuits / zk_stdlib are taken at their specification at the gadget boundary (properties C04-C07): "
         "the in-circuit model says what each compiled ZKIR operation computes and constrains, not how rows are laid out",
         "SHA-256, SHA-512 and Poseidon are uninterpreted functions of the model (the harness passes the digests observed "
         "off-circuit in the request; the in-circuit chips are assumed to compute the same functions: C07)",
-        "serde_json (JSON round trip is checked on the real code only); MockProver as the satisfiability oracle of the compiled circuit",
+        "bincode 2.0.1 and serde / serde_json are third-party code modelled from their sources (decoder, derived impls, limit "
+        "accounting; JSON at tree level: text syntax, escapes and number lexing are serde_json's) and compared with the real "
+        "libraries on every run, not verified; MockProver as the satisfiability oracle of the compiled circuit",
+        "UTF-8 validity is Lean core's `ByteArray.IsValidUTF8` (String.fromUTF8?), compared with Rust's String::from_utf8 on "
+        "well- and ill-formed names",
     ],
     "assumptions": [
         "Jubjub group law is not proved here: both interpreters call the same model functions for point addition and scalar multiplication",
-        "model restrictions on constants: ASCII names; BigUint: payloads are plain hexadecimal digits (no '+', no '_')",
+        "model restrictions on constants: BigUint: payloads are plain hexadecimal digits (no '+', no '_'); names in `run` "
+        "requests are ASCII without separators (arbitrary UTF-8 names go through the `dec` / `json` requests)",
+        "size_of::<Instruction>() and size_of::<String>() (limit accounting) are reported by the harness in each `dec` request; "
+        "the non-vacuity examples use the 64-bit values 72 and 24",
     ],
     "level_text": "Kernel-checked Lean theorems about an executable model of both ZKIR interpreters (all programs, all witnesses, "
-                  "hash functions uninterpreted), with the model compared line by line with the real loader, interpreter, compiler, "
-                  "public-input encoder, mock checker and serialiser on generated programs on every run",
+                  "hash functions uninterpreted) and of the binary and JSON readers/writers of programs (round trips, injectivity, "
+                  "exact canonical form), with the model compared line by line with the real loader, interpreter, compiler, "
+                  "public-input encoder, mock checker, serialisers and deserialisers on generated programs, byte strings and JSON "
+                  "trees on every run",
     "level_note": "Trusted: Lean kernel, the correspondence harness and driver; gadget internals below the ZKIR operation level "
                   "(C04-C07) and the hash functions are specified, not verified. off_in_agree / off_fail_unsat are proved as "
-                  "`_partial`: hypothesis RunRegular excludes Jubjub scalars built by FromBytes from 0 or >= 32 bytes (recorded "
-                  "finding N7, negation proved: off_in_agree_fails_for_long_scalars); the in-circuit pass may reject with a static "
-                  "error (comparison typing gap, negation of full typing agreement proved; BigUint limb-bookkeeping panic); "
-                  "format_instance succeeding is a hypothesis of the public-input equality; binary/JSON round trips are checked on "
-                  "the real code and the byte encoder by correspondence (no decoder theorem)",
+                  "`_partial`: hypothesis RunRegular restricts exactly one operation at one type — FromBytes(JubjubScalar) must be "
+                  "fed 1..31 bytes (recorded finding N7, negation proved: off_in_agree_fails_for_long_scalars); every program "
+                  "without that instruction is covered for all witnesses (runRegular_of_no_scalar_conversion), and for that class "
+                  "off_fail_unsat is proved at full strength (off_fail_unsat_no_scalar_conversion); the in-circuit pass may reject "
+                  "with a static error (comparison typing gap, negation of full typing agreement proved; BigUint limb-bookkeeping "
+                  "panic); format_instance succeeding is a hypothesis of the public-input equality. Round trips: the binary one "
+                  "holds under an explicit bound of the decoder's 2^24-byte allocation limit (programs beyond it are written but "
+                  "not read back: decode_rejects_beyond_limit, more than 233016 instructions); canonical form is `_partial`: "
+                  "read_relation also accepts over-wide integers (exactly those: strict-decoder theorem + witness) and leaves "
+                  "trailing bytes unread; the JSON theorem is about trees (serde data model), text syntax is serde_json's; the "
+                  "decoder and reader models are of third-party code (bincode, serde) and are tied by correspondence only",
     "timeout": {"quick": 900, "thorough": 3000, "search": 1500},
 }
